@@ -74,4 +74,8 @@ Next == /\ Len(doc) < MaxTok
 \* rendered shapes appear in document order of their (outermost) source token and never come from hidden subtrees
 NothingFromHidden == \A s \in {k \in 1..Len(out) : TRUE} : out[s][1] \in ShapeTags
 CompleteIsBalanced == Balanced(Close(doc))
+\* the writer's strategy (C20): a shape written with transform  ctm * inverse(viewport)  inside the same viewport renders where it did
+WriterLaw == \A k \in 1..Len(out) :
+   LET c == out[k][3]  v == out[k][6] IN
+   AF!Det(v) # RZero => AF!Then(AF!Then(c, AF!Inverse(v)), v) = c
 =============================================================================
